@@ -39,6 +39,8 @@ var stateLeaving = []string{
 }
 
 var probes = []string{
+	"\xef\xbb\xbf# Title\n", "[a](https://example.com/aaaaaaaaaaaa)\n", "[a](javascript:alert(1)//aaaaaa)\n", "![i](https://example.com/iiiiiiiiiiii)\n", "![i](javascript:alert(1)//iiiiii)\n",
+	"x[^1]\n\n[^1]: one\n", "x[^1] y[^1] z[^1]\n\n[^1]: three\n",
 	"[foo]\n", "[bar]\n", "[foo][]\n", "# a\n", "## heading\n", "x[^1]\n", "[^1]\n", "\"quoted\" 'single'\n", "text\n", "    code?\n", "- a\n- b\n", "c | d\n", ": def\n", "![img][foo]\n", "# h\n# h\n",
 }
 
@@ -86,15 +88,22 @@ func implHistory(cs Case) ImplResult {
 	// always end with probes
 	hist = append(hist, []byte(probes[rng.Intn(len(probes))]), []byte(probes[rng.Intn(len(probes))]))
 	shared := c.Build()
+	reuse := rng.Chance(50) // half of the histories feed every source through one reused buffer (as a server reading requests would)
+	var reusedBuf [4096]byte
 	var fails []OracleFail
 	fail := func(clause, f string, a ...interface{}) {
 		if len(fails) < 3 {
 			fails = append(fails, OracleFail{"C06", clause, fmt.Sprintf(f, a...)})
 		}
 	}
-	for step, src := range hist {
+	for step, src0 := range hist {
+		src := src0
+		if reuse && len(src0) <= len(reusedBuf) {
+			n := copy(reusedBuf[:], src0)
+			src = reusedBuf[:n:n]
+		}
 		var want bytes.Buffer
-		if err := c.Build().Convert(src, &want); err != nil {
+		if err := c.Build().Convert(append([]byte{}, src0...), &want); err != nil {
 			fail("convert-error", "fresh Convert(%q): %v", src, err)
 		}
 		var got bytes.Buffer
